@@ -13,10 +13,13 @@ statements) stands for which callable of the specification (`SFun`: a piece of t
 reachable by name (`ClosRel`), through the `caller` namespaces (`NSRel`), and for the module's top-level defs.
 
 Covered by the guard `Good` (see `Props/C05.lean` for the exact list): defs – top-level, nested in defs, written
-inside a `<%call>` – with buffered / `filter=` / `decorator=`, calls by name, `capture`, `<%call>` with body, body
-arguments and nested defs, `caller.x(…)`, `<%include>` of another template of the set, all control structures.
-*Not* covered: `<%block>`, `cached=`, defs under a control line or in a nested `<%call>` of a `<%call>` body, two defs
-of one name in a scope, and the places where mako's generated code deviates from the specification:
+inside a `<%call>` (directly, below a control line, inside a nested `<%call>`) – with buffered / `filter=` /
+`decorator=`, calls by name, `capture`, `<%call>` with body, body arguments and nested defs, `caller.x(…)`,
+`<%block>`s rendered in place (named and anonymous, with `buffered` / `filter=`), `<%include>` of another template of
+the set, all control structures.
+*Not* covered: `cached=`, blocks that contain defs or blocks or sit directly in the content of a `<%call>`, a block
+that reads the `loop` of a `% for` around it, defs *inside* a def that a `<%call>` exports from below a control line,
+two callables of one name in a scope, and the places where mako's generated code deviates from the specification:
 `<% return %>` inside a buffering def, `caller.x()` inside the argument list of a `<%call expr>`, `loop` used where no
 `LoopStack` is in scope.
 -/
